@@ -348,7 +348,7 @@ const FLAVORS: [&str; 3] = ["é", "→", "💾"];
 
 /// comment kinds as in C12: 0 block, 1 line, 2 two-line block (inserted before the terminal),
 /// 3 line / 4 block comment ending the previous line (replace a line-break separator)
-const COMMENT_KINDS: [&str; 5] = ["block", "line", "mblock", "eol-line", "eol-block"];
+const COMMENT_KINDS: [&str; 7] = ["block", "line", "mblock", "eol-line", "eol-block", "same-line", "same-line-block"];
 
 fn comment_text(kind: usize, second: bool, flavor: Option<&str>) -> String {
     let (a, b, c, d) = match (flavor, second) {
@@ -361,7 +361,10 @@ fn comment_text(kind: usize, second: bool, flavor: Option<&str>) -> String {
         1 => format!("// {}\n", b),
         2 => format!("/* {}\n   {} */", c, d),
         3 => format!(" // {}\n", b),
-        _ => format!(" /* {} */\n", a),
+        4 => format!(" /* {} */\n", a),
+        // the statement shares the previous statement's line
+        5 => " ".to_string(),
+        _ => format!(" /* {} */ ", a),
     }
 }
 
@@ -388,6 +391,10 @@ fn comment_slots(r: &Rendered) -> Vec<(usize, usize)> {
                 if t.sep == "\n" {
                     out.push((i, 3));
                     out.push((i, 4));
+                }
+                if r.joinable(i) {
+                    out.push((i, 5));
+                    out.push((i, 6));
                 }
             }
         }
